@@ -226,7 +226,11 @@ func (c *c12Child) runTail(cs *c12Case) c12Outcome {
 		return o
 	}
 	got := 0
+	t0 := time.Now()
 	for got < cs.GoneAfter {
+		if cs.GoneAfter >= 1000 && time.Since(t0) > 2500*time.Millisecond {
+			break
+		}
 		con.SetReadDeadline(time.Now().Add(4 * time.Second))
 		_, msg, err := con.ReadMessage()
 		if err != nil {
@@ -242,6 +246,14 @@ func (c *c12Child) runTail(cs *c12Case) c12Outcome {
 		got++
 	}
 	o.Chunks = got
+	if cs.GoneAfter >= 1000 && got >= cs.GoneAfter && o.BodyBytes < got {
+		// thousands of EMPTY messages within the read deadline: the handler is spinning on a closed result channel
+		o.Outcome = "flood"
+		o.Dump = fmt.Sprintf("%d websocket messages with %d payload bytes in total received in %d ms", got, o.BodyBytes, time.Since(t0).Milliseconds())
+		con.UnderlyingConn().Close()
+		c.settleCensus(before, db, &o, 3500*time.Millisecond)
+		return o
+	}
 	if cs.WriteErr {
 		con.UnderlyingConn().Close() // the peer vanishes: the server's next writes fail
 	} else {
@@ -377,6 +389,33 @@ func c12GoneCases(rng *h.Rng, tier string, firstID int) ([]*c12Case, error) {
 				cases = append(cases, c)
 			}
 		}
+	}
+	// the tail's goroutine has no recover and runs the planner chain's Process once per tick: grammar-generated queries
+	// (log and metric forms) through it; the client stays for two messages (≥ one tick), then leaves
+	ne := 6
+	if tier != "quick" {
+		ne = 90
+	}
+	tr := rng.Fork()
+	for i := 0; i < ne; i++ {
+		q, qc := c12QueryText(tr, c12LogQL)
+		a := c12Answer{Shape: "auto", N: tr.Intn(40), Seed: tr.U64()}
+		if tr.Chance(20) {
+			a.FailAt = 1 + tr.Intn(10)
+		}
+		if tr.Chance(10) {
+			a.QueryErr = true
+		}
+		cases = append(cases, &c12Case{ID: firstID + len(cases), Kind: "tail", Endpoint: "loki/tail", Method: "GET", Abort: -1,
+			Path: "/loki/api/v1/tail?query=" + url.QueryEscape(q), Query: q, GoneAfter: 2, WriteErr: tr.Bool(),
+			Answers: []c12Answer{a}, From: (c12Base - 300) * 1e9, To: c12Base * 1e9, Class: "gone tail-explore q=" + qc})
+	}
+	// a query the tail cannot serve (a metric query: the planner refuses step 0): the service side ends at once;
+	// the handler must end too instead of sending messages for ever
+	for _, q := range []string{`rate({a="b"}[1m])`, `count_over_time({a="b"} | json [5m])`} {
+		cases = append(cases, &c12Case{ID: firstID + len(cases), Kind: "tail", Endpoint: "loki/tail", Method: "GET", Abort: -1,
+			Path: "/loki/api/v1/tail?query=" + url.QueryEscape(q), Query: q, GoneAfter: 3000, WriteErr: true,
+			Answers: []c12Answer{{Shape: "auto", N: 3, Seed: 5}}, From: (c12Base - 300) * 1e9, To: c12Base * 1e9, Class: "gone tail-unsupported-query"})
 	}
 	// a tail request that is refused before the upgrade
 	cases = append(cases, &c12Case{ID: firstID + len(cases), Kind: "tail", Endpoint: "loki/tail", Method: "GET", Abort: -1,
